@@ -347,6 +347,27 @@ func c37(c *Ctx) {
 		}
 		c.Expect(okInc, app, nr, "created-count-grows-by-one-per-entry", "the created-entries count is not incremented by one per appended entry")
 	})
+	c.Ob("ring-follows-config", "R3", "UpdateClientConnState: the ring is scheduled for regeneration whenever there was no previous config or the new min_ring_size or max_ring_size differs from the previous one (the ring depends only on the endpoint set and the current bounds, not on the order of config updates); regeneration is skipped only when both bounds are unchanged", 2, func() {
+		f := c.fn(rhp, "ringhashBalancer.UpdateClientConnState")
+		fCfg := c.field(rhp, "ringhashBalancer", "config")
+		fRegen := c.field(rhp, "ringhashBalancer", "shouldRegenerateRing")
+		fMin := c.field("internal/ringhash", "LBConfig", "MinRingSize")
+		fMax := c.field("internal/ringhash", "LBConfig", "MaxRingSize")
+		n := 0
+		for _, st := range storesToField(f, fRegen) {
+			if !c.Expect(ConstBool(true)(st.Val), st, f, "regeneration-flag-only-raised-here", "the regeneration flag is lowered in the config update") {
+				continue
+			}
+			n++
+			if !c.Expect(len(st.Block().Succs) == 1, st, f, "flag-arm-shape", "unexpected shape of the regeneration arm") {
+				continue
+			}
+			sb := st.Block()
+			c.EnteredOnlyWhenAll(sb.Succs[0], "regeneration-skipped-only-when-both-bounds-are-unchanged", func(p *ssa.BasicBlock) bool { return p == sb || sb.Dominates(p) },
+				NotNil(FieldLoad(fCfg)), Cmp(FieldLoad(fMin), token.EQL, FieldLoad(fMin)), Cmp(FieldLoad(fMax), token.EQL, FieldLoad(fMax)))
+		}
+		c.Expect(n == 1, nil, f, "one-regeneration-arm", "expected one arm scheduling the ring regeneration on a config change")
+	})
 	c.Ob("wrap-and-sorted", "R2", "ring.pick: sort.Search over len(items) with predicate items[i].hash >= h, index reset to 0 when it equals len(items); ring.next = (idx+1) mod len; items written only in newRing, sorted by hash, idx assigned after the sort in order", 9, func() {
 		rp := c.fn(rhp, "ring.pick")
 		se := one(c, "sort.Search", callsIn(rp, CalleeX("sort", "Search")))
